@@ -160,6 +160,10 @@ impl Campaign for StressCampaign {
             }
         };
         let client = Arc::new(client);
+        // flush markers (spy only; nobody consumes the channel during the run, so its
+        // length is the number of messages written so far): (thread, last acked seq, len)
+        let markers: Arc<Mutex<Vec<(usize, i64, usize)>>> = Arc::new(Mutex::new(Vec::new()));
+        let spy_len = spy_rx.clone();
         // ---- producers
         let mut joins = Vec::new();
         for t in 0..case.threads as usize {
@@ -167,6 +171,8 @@ impl Campaign for StressCampaign {
             let n = case.per_thread as usize;
             let fe = case.flush_every as usize;
             let pat = util::mix(case.yields, t as u64 + 1);
+            let markers = markers.clone();
+            let spy_len = spy_len.clone();
             joins.push(std::thread::spawn(move || {
                 let mut acked: Vec<String> = Vec::new();
                 let mut errors: Vec<String> = Vec::new();
@@ -180,7 +186,14 @@ impl Campaign for StressCampaign {
                     }
                     if fe > 0 && i % fe == fe - 1 {
                         match util::catch(|| client.flush()) {
-                            Ok(Ok(())) => {}
+                            Ok(Ok(())) => {
+                                if let Some(rx) = &spy_len {
+                                    // everything this thread emitted so far must be out now
+                                    let last = acked.len() as i64 - 1;
+                                    let _ = last;
+                                    markers.lock().unwrap().push((t, i as i64, rx.len()));
+                                }
+                            }
                             Ok(Err(e)) => errors.push(format!("flush failed: {}", e)),
                             Err(p) => panics.push(format!("flush panicked: {}", p)),
                         }
@@ -292,6 +305,36 @@ impl Campaign for StressCampaign {
             }
             if bad.len() > 5 {
                 break;
+            }
+        }
+        // flush markers: when a thread's flush returned Ok, its earlier metrics had been written
+        if case.sink == StressSink::Spy && bad.is_empty() {
+            let mut pos: HashMap<&str, usize> = HashMap::new();
+            for (di, d) in stream.iter().enumerate() {
+                if let Ok(text) = std::str::from_utf8(d) {
+                    for line in text.split_terminator('\n') {
+                        pos.entry(line).or_insert(di);
+                    }
+                }
+            }
+            let acked_sets: Vec<std::collections::HashSet<&str>> = acked.iter().map(|v| v.iter().map(|s| s.as_str()).collect()).collect();
+            'm: for (t, upto, len) in markers.lock().unwrap().iter() {
+                for i in 0..=*upto {
+                    let line = format!("t{}.s{}:1|c", t, i);
+                    if !acked_sets[*t].contains(line.as_str()) {
+                        continue;
+                    }
+                    match pos.get(line.as_str()) {
+                        Some(p) if *p < *len => {}
+                        other => {
+                            bad.push(format!(
+                                "thread {}: flush() returned Ok when {} datagrams had been written, but its earlier acknowledged metric '{}' is in datagram {:?}: flush reported success without writing it",
+                                t, len, line, other
+                            ));
+                            break 'm;
+                        }
+                    }
+                }
             }
         }
         for a in acked.iter().flatten() {
